@@ -311,9 +311,27 @@ def all_extensions() -> list[str]:
     return sorted(set(router._EXTRACTOR_REGISTRY) | set(router._EXTENSION_ALIASES)) + ["tar.gz", "tar.bz2", "tar.xz"]
 
 
+def pin_randomness() -> None:
+    """Seam: randomness.  mail-parser names filename-less attachment parts with random_string(); inside a simulation every source of
+    randomness is owned by the simulator, so the name becomes a constant (C06's configuration processes do NOT pin it: there the
+    difference between two extractions is exactly what is looked for, see known finding c06-mailparser-random-attachment-names)."""
+    try:
+        import mailparser.core as mc
+        import mailparser.utils as mu
+
+        def random_string(string_length=10):
+            return "simrandom0"[:string_length].ljust(string_length, "0")
+
+        mc.random_string = random_string
+        mu.random_string = random_string
+    except Exception:
+        pass
+
+
 def warm_all(extract: bool = True) -> None:
     """import every extractor module and extract one benign file per format (fills lazy imports and caches)"""
     import importlib
+    pin_randomness()
     for mod, _fn in registry().values():
         importlib.import_module(mod)
     if not extract:
